@@ -48,3 +48,85 @@ Theorem C07_unlimited_refresh_token_never_expires :
   forall t, introspect_refresh cfg (set_now s t) key tampered scopes <> None.
 Proof. exact unlimited_refresh_never_expires. Qed.
 Print Assumptions C07_unlimited_refresh_token_never_expires.
+
+(* ------------------------------------------------------------------ per-client lifetime overrides (client_with_custom_token_lifespans.go) *)
+From FositeModel Require Import Proofs.C12Flows Proofs.C07Life.
+
+Theorem C07_override_reads_its_own_field : forall cl l,
+  cl_life cl = Some l ->
+  override cl LAuthCode false = lf_ac_at l /\ override cl LAuthCode true = lf_ac_rt l /\
+  override cl LClientCreds false = lf_cc_at l /\ override cl LClientCreds true = None /\
+  override cl LImplicit false = lf_im_at l /\ override cl LImplicit true = None /\
+  override cl LPassword false = lf_pw_at l /\ override cl LPassword true = lf_pw_rt l /\
+  override cl LRefresh false = lf_rt_at l /\ override cl LRefresh true = lf_rt_rt l /\
+  override cl LDevice false = None /\ override cl LDevice true = None.
+Proof. exact override_reads_its_own_field. Qed.
+Print Assumptions C07_override_reads_its_own_field.
+
+Theorem C07_no_table_no_override : forall cl g rt,
+  cl_life cl = None -> override cl g rt = None.
+Proof. exact no_table_no_override. Qed.
+Print Assumptions C07_no_table_no_override.
+
+Theorem C07_override_takes_precedence : forall v d,
+  eff (Some v) d = v /\ eff None d = d.
+Proof. exact override_takes_precedence. Qed.
+Print Assumptions C07_override_takes_precedence.
+
+Theorem C07_eff_cfg_touches_only_token_lifetimes : forall cfg cl g,
+  let c := eff_cfg cfg cl g in
+  cf_life_at c = eff (override cl g false) (cf_life_at cfg) /\ cf_life_rt c = eff (override cl g true) (cf_life_rt cfg) /\
+  cf_life_code c = cf_life_code cfg /\ cf_life_dev c = cf_life_dev cfg /\ cf_par_life c = cf_par_life cfg /\
+  cf_scope c = cf_scope cfg /\ cf_aud_exact c = cf_aud_exact cfg /\ cf_refresh_scopes c = cf_refresh_scopes cfg /\
+  cf_pkce_enforce c = cf_pkce_enforce cfg /\ cf_pkce_enforce_public c = cf_pkce_enforce_public cfg /\ cf_pkce_plain c = cf_pkce_plain cfg /\
+  cf_introspect_rt c = cf_introspect_rt cfg /\ cf_par_enforced c = cf_par_enforced cfg.
+Proof. exact eff_cfg_touches_only_token_lifetimes. Qed.
+Print Assumptions C07_eff_cfg_touches_only_token_lifetimes.
+
+Theorem C07_redeem_lifetimes : forall cfg s auth code redirect v vh,
+  o_err (snd (redeem cfg s auth code redirect v vh)) = "" ->
+  exists c cl ka r, auth = Some c /\ clients s c = Some cl /\
+    access (st (fst (redeem cfg s auth code redirect v vh))) ka = Some r /\
+    s_exp_at (r_sess r) = Some (round_s (now s + eff (override cl LAuthCode false) (cf_life_at cfg))) /\
+    (0 <= eff (override cl LAuthCode true) (cf_life_rt cfg) ->
+     s_exp_rt (r_sess r) = Some (round_s (now s + eff (override cl LAuthCode true) (cf_life_rt cfg))))%Z.
+Proof. exact redeem_lifetimes. Qed.
+Print Assumptions C07_redeem_lifetimes.
+
+Theorem C07_refresh_lifetimes : forall cfg s auth tok,
+  o_err (snd (refresh_flow cfg s auth tok)) = "" ->
+  exists c cl ka r, auth = Some c /\ clients s c = Some cl /\
+    access (st (fst (refresh_flow cfg s auth tok))) ka = Some r /\
+    s_exp_at (r_sess r) = Some (round_s (now s + eff (override cl LRefresh false) (cf_life_at cfg))) /\
+    (0 <= eff (override cl LRefresh true) (cf_life_rt cfg) ->
+     s_exp_rt (r_sess r) = Some (round_s (now s + eff (override cl LRefresh true) (cf_life_rt cfg))))%Z.
+Proof. exact refresh_lifetimes. Qed.
+Print Assumptions C07_refresh_lifetimes.
+
+Theorem C07_password_lifetimes : forall cfg s c ok sc au g ga,
+  o_err (snd (password_flow cfg s (Some c) ok sc au g ga)) = "" ->
+  exists cl ka r, clients s c = Some cl /\
+    access (st (fst (password_flow cfg s (Some c) ok sc au g ga))) ka = Some r /\
+    s_exp_at (r_sess r) = Some (round_s (now s + eff (override cl LPassword false) (cf_life_at cfg))).
+Proof. exact password_lifetimes. Qed.
+Print Assumptions C07_password_lifetimes.
+
+Theorem C07_client_credentials_lifetimes : forall cfg s c sc au g ga,
+  o_err (snd (client_credentials_flow cfg s (Some c) sc au g ga)) = "" ->
+  exists cl ka r, clients s c = Some cl /\
+    access (st (fst (client_credentials_flow cfg s (Some c) sc au g ga))) ka = Some r /\
+    s_exp_at (r_sess r) = Some (now s + eff (override cl LClientCreds false) (cf_life_at cfg))%Z.
+Proof. exact client_credentials_lifetimes. Qed.
+Print Assumptions C07_client_credentials_lifetimes.
+
+Theorem C07_implicit_lifetime : forall cfg s cl a ec,
+  s_exp_at (implicit_session cfg s cl a ec) = Some (round_s (now s + eff (override cl LImplicit false) (cf_life_at cfg))).
+Proof. exact implicit_lifetime. Qed.
+Print Assumptions C07_implicit_lifetime.
+
+Theorem C07_device_poll_uses_server_lifetimes : forall cfg s auth dev,
+  o_err (snd (device_poll cfg s auth dev)) = "" ->
+  exists ka r, access (st (fst (device_poll cfg s auth dev))) ka = Some r /\
+    s_exp_at (r_sess r) = Some (round_s (now s + cf_life_at cfg)).
+Proof. exact device_poll_uses_server_lifetimes. Qed.
+Print Assumptions C07_device_poll_uses_server_lifetimes.
